@@ -329,13 +329,13 @@ theorem TraceAt.whileLoop {c : Option ChildFn} (hc : ChildTraced c) (ctx : Ctx) 
 
 theorem TraceAt.ifPre (ctx : Ctx) (line : Nat) (l2 : Option Nat) (word : Str) (arg : Option Str) (st : St) :
     TraceAt ctx line (Duckling.ifPre ctx ⟨line, l2⟩ word arg st) := by
-  unfold Duckling.ifPre
+  unfold Duckling.ifPre Duckling.ifCond
   simp only []
   trace_auto
 
 theorem TraceAt.blockPre (ctx : Ctx) (c : ClsDesc) (word : Str) (line : Nat) (arg : Option Str) (block : List Node) (hb : Bool) (st : St) :
     TraceAt ctx line (Duckling.blockPre ctx c word line arg block hb st) := by
-  unfold Duckling.blockPre
+  unfold Duckling.blockPre Duckling.funcPre Duckling.ignorePre Duckling.repeatPre
   simp only []
   have hif := fun a => TraceAt.ifPre ctx line none word a st
   trace_auto
